@@ -15,6 +15,7 @@ from . import graph, tlc
 
 
 SLICE = 15000
+CORE_BREAKING = {"C01.forest", "C01.dag"}   # cycles / multiply listed tasks: the core state is not a forest
 
 
 def nontrivial(ev):
@@ -47,8 +48,11 @@ def _work(args):
                 ev["obs"] = obs
             eid += 1
             events.append(ev)
-            if key != pre_key and key not in new_states:
-                new_states[key] = (pickle.dumps(V), ev["id"], pre_key, a)
+            if key != pre_key:
+                if key not in new_states:
+                    new_states[key] = [pickle.dumps(V), [ev["id"]], pre_key, a]
+                else:
+                    new_states[key][1].append(ev["id"])
     j = {"fails": [], "states": 0}
     for b in range(0, len(events), SLICE):        # bounded JSON document per TLC run (heap)
         r = tlc.judge_one(wd, mod, events[b:b + SLICE], "%s_%d" % (idx, b), heap="1g")
@@ -57,6 +61,11 @@ def _work(args):
     byid = {e["id"]: e for e in events}
     fails = [(byid[i], c) for i, c in j["fails"] if not c.startswith("DRIFT")]
     drifts = [(byid[i], c) for i, c in j["fails"] if c.startswith("DRIFT")]
+    # a state is expanded later unless EVERY call that produced it left the graph itself ill-formed
+    broken = {e["id"] for e, c in fails if c in CORE_BREAKING}
+    for key, rec in new_states.items():
+        good = [i for i in rec[1] if i not in broken]
+        rec[1] = good[0] if good else None
     samples = [e for e in events if nontrivial(e)][:2]
     return {"n": len(events), "nontrivial": sum(1 for e in events if nontrivial(e)), "fails": fails,
             "ndrift": len(drifts), "drifts": drifts[:3], "new": new_states, "samples": samples,
@@ -90,7 +99,7 @@ def sample_of(e):
 
 
 def run(ids, W, L=2, level=2, max_levels=99, max_states=10 ** 9, jobs=16, log=None,
-        stop_on_fail=True, keep_events=None, alphabet=None, start=None, frontier_cap=None, rng=None,
+        stop_on_fail=False, max_fails=3000, keep_events=None, alphabet=None, start=None, frontier_cap=None, rng=None,
         prune=False, light=False):
     """Exhaustive (or frontier-sampled) exploration + judging.  Returns Result."""
     t0 = time.time()
@@ -139,7 +148,10 @@ def run(ids, W, L=2, level=2, max_levels=99, max_states=10 ** 9, jobs=16, log=No
                 if keep_events is not None:
                     keep_events.extend(r["events"])
                 for k, v in r["new"].items():
-                    if k not in seen and (k not in cand or v[1] < cand[k][1]):
+                    if k in seen:
+                        continue
+                    if k not in cand or (cand[k][1] is None and v[1] is not None) or \
+                            (v[1] is not None and cand[k][1] is not None and v[1] < cand[k][1]):
                         cand[k] = v
             res.events += nev
             if log:
@@ -148,10 +160,13 @@ def run(ids, W, L=2, level=2, max_levels=99, max_states=10 ** 9, jobs=16, log=No
             res.levels = lvl
             if res.fails and stop_on_fail:
                 break
+            if len(res.fails) > max_fails:
+                truncated = True
+                break
             frontier = []
-            for k in sorted(cand, key=lambda k: cand[k][1]):
+            for k in sorted(cand, key=lambda k: (cand[k][1] is None, cand[k][1] or 0)):
                 blob, via, pk, a = cand[k]
-                if via in bad_events:
+                if via is None:
                     continue
                 if len(seen) >= max_states:
                     truncated = True
